@@ -73,6 +73,7 @@ def cases(tier):
         # a power-cell boundary a few per cent of a step past a regular plane
         for re in ('lam', 'trans'):
             out.append(dict(base, re=re, wall='none', bnd='just-past'))
+            out.append(dict(base, re=re, wall='none', bnd='just-past-far'))
         for d in ('d2', 'd3'):
             for re in ('lam', 'turb'):
                 out.append(dict(base, design=d, core=7, re=re, wall='none', eqT=True, power='asym'))
@@ -80,6 +81,8 @@ def cases(tier):
                 out.append(dict(base, design=d, core=7, re=re, wall='no_flow', ducts='2w'))
                 for wall in ('none', 'flow'):
                     out.append(dict(base, design=d, core=7, re=re, wall=wall, flows='spread', power='asym'))
+            for wall in ('none', 'flow'):
+                out.append(dict(base, design=d, core=7, re='vlow', wall=wall, flows='near', power='asym'))
         for ca in (True,):
             for du in ('1', '2f'):
                 for re in ('vlow', 'lam'):
@@ -225,8 +228,12 @@ def build(c, power):
         if c.get('flows') == 'spread':
             # a thirty-fold spread; the lowest flows follow the highest ones and the last assembly has the highest
             fac = (4.0, 0.125, 2.0, 0.25, 1.0, 4.0)
+        if c.get('flows') == 'near':
+            # flows of a few grams per second that agree to the gram (15.4 ... 14.6 g/s), the largest first
+            flow = 0.0154
+            fac = tuple(x / 0.0154 for x in (0.0152, 0.0146, 0.0151, 0.0148, 0.0153, 0.0150))
         scn['assign'] = [['A', 1, 1, {'flowrate': flow}]] + \
-            [['A', 2, p, {'flowrate': flow * f}] for p, f in zip(range(1, 7), fac)]
+            [['A', 2, p, {'flowrate': round(flow * f, 9)}] for p, f in zip(range(1, 7), fac)]
         spec = scn['power']['asm']['1']
         scn['power']['asm'] = {str(i + 1): dict(spec, seed=i) for i in range(7)}
         if c.get('eqT'):
@@ -438,6 +445,18 @@ def run_case(c):
                 return r
         k = max(1, int(0.5 * c['L'] / lim))
         c = dict(c, cell_at=round(k * lim + 0.03 * lim, 12))
+    if c.get('bnd') == 'just-past-far':
+        # the same on a 1 m core: a power-cell boundary 2 um above a regular plane at about 0.6 m (round-off of
+        # that height is 1e-16 m; 2 um is a real distance)
+        with S.Built(build(dict(c, bnd=None), 'zero')) as b0:
+            try:
+                lim = float(b0.reactor().req_dz)
+            except SystemExit as e:
+                r['outcome'] = 'rejected-at-setup'
+                r['info'] = {'site': site_of(e)}
+                return r
+        k = max(1, int(0.6 / lim))
+        c = dict(c, L=1.0, cell_at=round(k * lim + 2.0e-6, 12))
     # temperature-dependent coolant: DASSH selects the step for the inlet..outlet range of the REAL power
     scn = build(c, c.get('power', 'asym') if c.get('coolant') else 'zero')
     with S.Built(scn) as b:
